@@ -26,6 +26,7 @@ PROP = {  # commit subject fragment -> (property, id)
  "pointer_mut with an empty path": ("C15", "F8"),
  "Entry::key of an occupied entry": ("C15", "F7"),
  "IntoIter::as_slice panics": ("C15", "F9"),
+ "left positioned beyond it": ("C01", "F28"),
 }
 KNOWN = []
 out = []
